@@ -40,6 +40,7 @@ func runC18(c *Ctx, r *Report) {
 	c18Tiling(c, r, "C18.R5")
 	c18Chunks(c, r, "C18.R6")
 	c18NarrowLen(c, r, "C18.R7")
+	c14TablesFor(c, r, "C18.R8", "openvpn") // parsers reject inputs of the wrong length whatever state the message object is in (a digest left from an earlier message)
 }
 
 // c18Header evaluates MessageHeader.FromBytes/ToBytes for all 256 byte values.
